@@ -399,6 +399,12 @@ func grammarTagsFromAST(repo string) ([]gtag, error) {
 			}
 		}
 	}
+	// The order in which the struct TYPES are declared means nothing to participle (the grammar is reached from Route
+	// through the fields); the order of the FIELDS inside one struct is the order of the sequence. Types are emitted
+	// sorted by name, fields in source order: moving a type declaration within the file changes nothing here.
+	sort.SliceStable(tags, func(i, j int) bool {
+		return tags[i].where[:strings.Index(tags[i].where, ".")] < tags[j].where[:strings.Index(tags[j].where, ".")]
+	})
 	return tags, tagsComplete(tags)
 }
 
@@ -574,7 +580,7 @@ func emitParserFacts(repo string) (string, error) {
 			return "", e
 		}
 	}
-	b.WriteString("/-- the `parser:\"…\"` struct tags of definition.go (`Type.Field`, tag with whitespace normalised), in source order -/\n")
+	b.WriteString("/-- the `parser:\"…\"` struct tags of definition.go (`Type.Field`, tag with whitespace normalised), types sorted by name, fields of a type in source order -/\n")
 	b.WriteString("def grammarTags : List (String × String) := [\n")
 	for i, t := range tags {
 		fmt.Fprintf(&b, "  (%s, %s)", leanStr(t.where), leanStr(t.text))
